@@ -203,17 +203,17 @@ def main(run):
         if r["panic"]:
             kk = known_crash_key(r["panic"])
             run.violation(kk or key, "compiler crashed on a reference-accepted core program",
-                          {"program": src, "panic": r["panic"][:2000], "shrunk_program": None if kk else shrunk(p, "crash:other")})
+                          {"program": src, "ast": p, "panic": r["panic"][:2000], "shrunk_program": None if kk else shrunk(p, "crash:other")})
         elif not r["accepted"]:
             run.violation(key, "reference-accepted core program rejected by the compiler",
-                          {"program": src, "diagnostics": r["diag"][:2000], "shrunk_program": shrunk(p, "rejected")})
+                          {"program": src, "ast": p, "diagnostics": r["diag"][:2000], "shrunk_program": shrunk(p, "rejected")})
         elif r.get("rc") != 0:
             run.violation(key, "executable of a terminating, panic-free program exited with status %s" % r.get("rc"),
-                          {"program": src, "stdout": r.get("out"), "stderr": r.get("err"), "reference": model_output("c01_replay", p),
+                          {"program": src, "ast": p, "stdout": r.get("out"), "stderr": r.get("err"), "reference": model_output("c01_replay", p),
                            "shrunk_program": shrunk(p, "exit")})
         elif mv == "diff" or observed[i] is None:
             run.violation(key, "executable output differs from the reference semantics",
-                          {"program": src, "stdout": r.get("out"), "reference": model_output("c01_replay", p),
+                          {"program": src, "ast": p, "stdout": r.get("out"), "reference": model_output("c01_replay", p),
                            "shrunk_program": shrunk(p, "diff")})
     run.extra["skipped_undefined_or_fuel"] = nskip
     if not ok:
@@ -234,5 +234,21 @@ def setup():
     isel.gen_tables()
 
 def replay(run, path):
-    print(open(path).read())
-    return 0
+    """re-run a recorded violation against the current tree: the program (AST in the replay file) is compiled, executed and
+    compared with the reference again; exit 1 while it still fails"""
+    d = json.load(open(path))
+    rp = d.get("replay", d)
+    ast = rp.get("ast")
+    if ast is None:
+        print(json.dumps(d, indent=1)[:6000])
+        print("(no AST recorded in this replay file: nothing to re-run)")
+        return 0
+    work = Work()
+    cls = failure_class(ast, work)
+    print(core.to_ferret(ast))
+    print("reference:", model_output("c01_replay", ast)[-1500:])
+    if cls is None:
+        print("REPLAY: executable and reference agree on the current tree")
+        return 0
+    print("VIOLATION property=C01 replay=%s still fails on the current tree (%s)" % (path, cls))
+    return 1
